@@ -9,6 +9,7 @@ CHECKS = {
         {"pkg": "pure", "test": "TestC17LWW", "quick": 20000, "thorough": 1000000, "shards_quick": 8, "shards_thorough": 16},
         {"pkg": "sim", "test": "TestC17Observer", "quick": 1500, "thorough": 60000, "shards_quick": 4, "shards_thorough": 8},
         {"pkg": "sim", "test": "TestC17Stream", "quick": 800, "thorough": 30000, "shards_quick": 4, "shards_thorough": 8},
+        {"pkg": "sim", "test": "TestC17AfterLeave", "quick": 600, "thorough": 30000, "shards_quick": 4, "shards_thorough": 8},
         ],
         "engine": "PURE+SIM",
         "level_text": "Stateful property-based test: generated upsert/delete/compact/leave sequences on the real gossip state object are compared step by step with a reference last-write-wins map (visible keys, tombstones, version freshness, no-op detection, compaction effects). Exploration only: shows the property for the generated sequences.",
@@ -213,7 +214,7 @@ CHECKS["C19"] = {
 
 CHECKS["C20"] = {
     "subs": [
-        {"pkg": "sim", "test": "TestC20Program", "race": True, "quick": 600, "thorough": 60000, "shards_quick": 8, "shards_thorough": 16, "timeout_quick": 900, "timeout_thorough": 7200},
+        {"pkg": "sim", "test": "TestC20Program", "race": True, "quick": 600, "thorough": 12000, "shards_quick": 8, "shards_thorough": 16, "timeout_quick": 900, "timeout_thorough": 7200},
         {"pkg": "sys", "test": "TestC20Churn", "race": True, "quick": 2, "thorough": 48, "shards_quick": 2, "shards_thorough": 8, "timeout_quick": 900, "timeout_thorough": 7200},
     ],
     "engine": "SIM+SYS (-race)",
